@@ -19,7 +19,8 @@ import (
 func init() {
 	register(&RuleSet{
 		ID: "C12",
-		Explanation: "R1 serial agreement: in every certificate-template producer (production functions that store an x509.Certificate's SerialNumber or its Subject / Subject.SerialNumber), the certificate serial and the subject serial share one non-constant origin (related by big.Int String/SetString); a producer that works on a copy of another certificate and sets only one of the two is reported. " +
+		Explanation: "R10 a creation gate that refuses an existing object (os.ErrExist / status AlreadyExists) makes its existence probe under no condition that derives from --keep_going (output.AllowRecoverableError): keep_going may soften the refusal, never skip the probe. " +
+			"R1 serial agreement: in every certificate-template producer (production functions that store an x509.Certificate's SerialNumber or its Subject / Subject.SerialNumber), the certificate serial and the subject serial share one non-constant origin (related by big.Int String/SetString); a producer that works on a copy of another certificate and sets only one of the two is reported. " +
 			"R2 no-clobber: in sign/gcsca the object write inside the gate is reachable only where Storage.Exists returned false or output.AllowOverwrite returned true (ESP); R2b every other storage write of gcsca is the manifest write, so certificate objects cannot be written around the gate. " +
 			"R3 old key retired: rotate.Key returns nil only after the old key was destroyed or the previous primary version was found empty (ESP, with the rules of C10). " +
 			"R4 profile: NotAfter is NotBefore plus exactly RootValidDays for a CA / self-issued template and SignValidDays otherwise, per branch on IsCA / Issuer == nil; where a producer sets KeyUsage, the CA arm has IsCA=true and CertSign|CRLSign and the other arm DigitalSignature. " +
@@ -41,6 +42,7 @@ func isCertField(fa *ssa.FieldAddr, name string) bool {
 func runC12(c *Ctx) {
 	defer c12Wipeout(c)
 	defer c12EveryCertUploaded(c)
+	defer c12ExistenceGates(c)
 	stypPkg := repoPath("sign/types")
 	sl := flow.NewSlicer(c.P)
 	sl.ThroughOutParams = true
@@ -861,4 +863,80 @@ func c12EveryCertUploaded(c *Ctx) {
 		}
 	}
 	c.S.Floor("R9", "loops over a mutation's certificates in sign/gcsca", 1, n)
+}
+
+// c12ExistenceGates is R10: a creation gate that refuses because the object already exists (returns os.ErrExist or a
+// status AlreadyExists) makes its existence probe whenever overwriting was not permitted. --keep_going may turn the
+// refusal into "leave the old object alone and go on"; it never makes the gate skip the probe, because what follows an
+// unprobed gate is the creation itself: the key (or certificate) of a live chain is regenerated under the same name
+// without overwrite permission.
+func c12ExistenceGates(c *Ctx) {
+	isRefusal := func(v ssa.Value) bool {
+		switch x := v.(type) {
+		case *ssa.UnOp:
+			if g, ok := x.X.(*ssa.Global); ok && x.Op == token.MUL && g.Name() == "ErrExist" {
+				return true
+			}
+		case *ssa.Call:
+			if g := x.Call.StaticCallee(); g != nil && g.Pkg != nil && strings.HasSuffix(g.Pkg.Pkg.Path(), "grpc/status") && (g.Name() == "Errorf" || g.Name() == "Error") && len(x.Call.Args) > 0 {
+				if k, ok := x.Call.Args[0].(*ssa.Const); ok && k.Value != nil {
+					if want := c.extConst("google.golang.org/grpc/codes", "AlreadyExists"); want != nil && constant.Compare(k.Value, token.EQL, want) {
+						return true
+					}
+				}
+			}
+		}
+		return false
+	}
+	fromKeepGoing := func(v ssa.Value) bool {
+		lsl := flow.NewSlicer(c.P)
+		return lsl.Derives(v, func(x ssa.Value) bool {
+			call, ok := x.(*ssa.Call)
+			if !ok {
+				return false
+			}
+			g := call.Call.StaticCallee()
+			return g != nil && g.Name() == "AllowRecoverableError" && load.RelPkg(g) == "cmd/output"
+		})
+	}
+	n := 0
+	for _, f := range c.P.RepoFunctions() {
+		if c.isTestFunc(f) || f.Blocks == nil || strings.HasPrefix(load.RelPkg(f), "testing/testkms") {
+			continue
+		}
+		for _, b := range f.Blocks {
+			ret, ok := b.Instrs[len(b.Instrs)-1].(*ssa.Return)
+			if !ok || len(ret.Results) == 0 || !isRefusal(ret.Results[len(ret.Results)-1]) {
+				continue
+			}
+			// the probes: calls whose results are tested on the way to the refusal (the permission calls are not probes)
+			probes := map[*ssa.Call]bool{}
+			for _, cf := range dominatingConds(b) {
+				lsl := flow.NewSlicer(c.P)
+				lsl.Visit(cf.Cond, func(v ssa.Value) bool {
+					if call, ok := v.(*ssa.Call); ok && call.Parent() == f {
+						if g := call.Call.StaticCallee(); g != nil && load.RelPkg(g) == "cmd/output" {
+							return false
+						}
+						if _, isBuiltin := call.Call.Value.(*ssa.Builtin); !isBuiltin {
+							probes[call] = true
+						}
+						return false
+					}
+					return true
+				}, nil)
+			}
+			for p := range probes {
+				n++
+				bad := false
+				for _, cf := range dominatingConds(p.Block()) {
+					if fromKeepGoing(cf.Cond) {
+						bad = true
+					}
+				}
+				c.S.Check(!bad, "R10", load.FuncName(f)+":existence probe "+callName(p), c.pos(p.Pos()), "the probe is made whenever overwriting is not permitted", "the existence probe of this creation gate is skipped under --keep_going: what follows an unprobed gate is the creation itself, so an existing key (certificate) of a live chain is replaced without overwrite permission")
+			}
+		}
+	}
+	c.S.Floor("R10", "existence probes of creation gates", 2, n)
 }
